@@ -11,6 +11,14 @@ CHECKS = {
             "exhaustive header cross-product enumeration + Hypothesis random/mutated octets, differential against an independent reference APCI codec",
             "Every combination of flag bits and code points with boundary octet values for all 8 PDU types is encoded by the library and compared octet-for-octet with an independent clause-20.1 reference codec, decoded back and compared field by field; all octet strings <=2 (<=3 thorough) and random/mutated strings are decoded differentially; the four table functions are checked on all code points and capabilities 0..2000. Exhaustive on the named finite sub-domains, sampled elsewhere.",
             "Trusts bpverif/ref/apci.py as a faithful transcription of clause 20.1; octet fields are sampled at {0,1,127,128,255} rather than all 256 values where the cross product would explode."),
+    "C08": ("exploration",
+            "exhaustive header-shape enumeration + Hypothesis-generated messages and mutated frames, differential against an independent reference NPCI codec",
+            "The header cross product (257 message selectors x 8 DADR shapes x 6 SADR shapes x flags x priority x hop counts x payload) is encoded by the library and compared octet-for-octet with an independent clause-6.2 codec and decoded back field by field; all 256 control octets at every truncation, all version octets, all short strings and Hypothesis-mutated frames are decoded differentially (DecodingError exactly when the reference rejects); the 12 message classes round-trip generated parameters.",
+            "Trusts bpverif/ref/npci.py; DNET=0xFFFF with DLEN>0 is counted but not judged; address contents are patterned, not exhaustive."),
+    "C09": ("exploration",
+            "Hypothesis-generated messages through a real AnnexJCodec + exhaustive header-space enumeration, differential against an independent Annex J reference codec",
+            "Generated parameters for all 12 BVLL functions go down through a real AnnexJCodec; the captured octets must equal an independent Annex J encoder (type, function, length == len(frame)); every payload length 0..1497 is visited; the full type x function x length-field header space, all short strings and mutated valid frames go up through AnnexJCodec.confirmation and must be refused with DecodingError exactly when the reference rejects, else restore every parameter.",
+            "Trusts bpverif/ref/bvlc.py; frames are taken at the codec boundary, not from a UDP socket; well-formed frames with unknown function codes are left to C10."),
 }
 
 NOT_YET = {}
